@@ -149,6 +149,12 @@ def curves(draw, pmin=0, pmax=4, kmax=4, rational=None, dim=None, nums=("frac",)
     if isinstance(P[0], list) and draw(st.integers(0, 3)) == 0:
         # the control points handed over as a list of separate arrays; equal points are the same object
         out["ptform"] = "arrays"
+    elif isinstance(P[0], list) and num == "float" and regimes is not False and draw(st.integers(0, 3)) == 0:
+        # integer data: an int64 array of control points (and integral weights as Python ints)
+        out["P"] = [[F(int(c)) for c in pt] for pt in P]
+        if w is not None:
+            out["w"] = [F(int(x)) if abs(x) >= 1 else x for x in w]
+        out["ptform"] = "int64"
     return out
 
 
